@@ -355,6 +355,54 @@ func checkC14(p *core.Program, r *core.Report) {
 				if cancels {
 					nClose++
 					r.Violation("O14.1", core.FuncName(fn)+": RegisterOnShutdown(cancel)", p.Pos(c.Pos()), "a context cancel function runs as soon as Shutdown starts: the contexts of the in-flight requests are cancelled while Shutdown is waiting for exactly those requests to finish")
+					continue
+				}
+				// any other hook: it runs while accepted requests are still being served; it may log, nothing else — a flag
+				// it sets ("draining") is read by handlers that were accepted before the stop and changes their answer
+				effects := ""
+				var hookFn *ssa.Function
+				switch h := arg.(type) {
+				case *ssa.MakeClosure:
+					hookFn, _ = h.Fn.(*ssa.Function)
+				case *ssa.Function:
+					hookFn = h
+				}
+				if hookFn == nil {
+					effects = "a function value that cannot be resolved"
+				} else {
+					for _, bb := range hookFn.Blocks {
+						for _, ii := range bb.Instrs {
+							switch x := ii.(type) {
+							case *ssa.Store:
+								if _, local := x.Addr.(*ssa.Alloc); !local {
+									effects = "a store to shared state at " + p.Pos(x.Pos())
+								}
+							case ssa.CallInstruction:
+								pkg := ""
+								if sc := x.Common().StaticCallee(); sc != nil {
+									pkg = pkgPathOf(sc)
+									if sc.Pkg == nil && sc.Signature.Recv() != nil {
+										if n := namedOf(sc.Signature.Recv().Type()); n != nil && n.Obj().Pkg() != nil {
+											pkg = n.Obj().Pkg().Path()
+										}
+									}
+								} else if x.Common().IsInvoke() && x.Common().Method.Pkg() != nil {
+									pkg = x.Common().Method.Pkg().Path()
+								}
+								if !(pkg == "github.com/rs/zerolog" || pkg == "log" || pkg == "fmt" || strings.HasSuffix(pkg, "/logging")) {
+									name := "a call"
+									if sc := x.Common().StaticCallee(); sc != nil {
+										name = sc.String()
+									}
+									effects = name + " at " + p.Pos(x.Pos())
+								}
+							}
+						}
+					}
+				}
+				if effects != "" {
+					nClose++
+					r.Violation("O14.1", core.FuncName(fn)+": RegisterOnShutdown hook", p.Pos(c.Pos()), "the shutdown hook does more than log (%s): it runs as soon as the stop is requested, while requests accepted earlier are still in flight, and what it changes can alter or cut their responses", effects)
 				}
 			}
 		}
